@@ -1259,6 +1259,76 @@ impl SwarmDriver {
     }
 }
 
+/// Verification hooks (feature `verif-hooks`): pass-throughs that let an external harness act as
+/// the event loop (pull queued commands, feed them to the real handlers) instead of `run()`.
+#[cfg(feature = "verif-hooks")]
+#[allow(missing_docs)]
+impl SwarmDriver {
+    pub fn verif_handle_local_cmd(&mut self, cmd: LocalSwarmCmd) -> Result<()> {
+        self.handle_local_cmd(cmd)
+    }
+    pub fn verif_handle_network_cmd(&mut self, cmd: NetworkSwarmCmd) -> Result<()> {
+        self.handle_network_cmd(cmd)
+    }
+    pub fn verif_try_recv_local_cmd(&mut self) -> Option<LocalSwarmCmd> {
+        self.local_cmd_receiver.try_recv().ok()
+    }
+    pub fn verif_try_recv_network_cmd(&mut self) -> Option<NetworkSwarmCmd> {
+        self.network_cmd_receiver.try_recv().ok()
+    }
+    /// (query id, key, number of waiting senders, per content hash: number of distinct responders)
+    pub fn verif_pending_get_record(&self) -> Vec<(QueryId, RecordKey, usize, Vec<usize>)> {
+        self.pending_get_record
+            .iter()
+            .map(|(id, (k, senders, result_map, _))| {
+                let versions = result_map.values().map(|(_, peers)| peers.len()).collect();
+                (*id, k.clone(), senders.len(), versions)
+            })
+            .collect()
+    }
+    pub fn verif_add_peer(&mut self, peer: PeerId, addr: Multiaddr) -> bool {
+        matches!(
+            self.swarm.behaviour_mut().kademlia.add_address(&peer, addr),
+            kad::RoutingUpdate::Success
+        )
+    }
+    pub fn verif_self_peer_id(&self) -> PeerId {
+        self.self_peer_id
+    }
+    pub fn verif_store_mut(&mut self) -> Option<&mut NodeRecordStore> {
+        match self.swarm.behaviour_mut().kademlia.store_mut() {
+            UnifiedRecordStore::Node(store) => Some(store),
+            UnifiedRecordStore::Client(_) => None,
+        }
+    }
+    /// What the `set_farthest_record_interval` tick of `run()` does with a computed distance.
+    pub fn verif_set_distance_range(&mut self, distance: U256) {
+        self.swarm
+            .behaviour_mut()
+            .kademlia
+            .store_mut()
+            .set_distance_range(distance);
+        self.replication_fetcher
+            .set_replication_distance_range(distance);
+    }
+    pub fn verif_reset_replication_throttle(&mut self) {
+        self.last_replication = None;
+        self.replication_targets.clear();
+    }
+    pub fn verif_get_replicate_candidates(&mut self, target: &NetworkAddress) -> Vec<PeerId> {
+        self.get_replicate_candidates(target)
+    }
+    pub fn verif_closest_k_value_local_peers(&mut self) -> Vec<PeerId> {
+        self.get_closest_k_value_local_peers()
+    }
+    pub fn verif_fetcher_snapshot(&self) -> crate::verif::VerifFetcherSnapshot {
+        self.replication_fetcher.verif_snapshot()
+    }
+    pub fn verif_fetcher_age(&mut self, d: Duration) {
+        self.replication_fetcher.verif_age(d)
+    }
+}
+
 #[cfg(test)]
 mod tests {
     use super::check_and_wipe_storage_dir_if_necessary;
